@@ -31,8 +31,10 @@ type Scn struct {
 	// AllowDeadlock: the scenario's own oracle decides about executions that end blocked;
 	// otherwise an execution that ends with main blocked is reported by the default check.
 	AllowDeadlock bool
-	Split         int // > 1: deal the first-level subtrees of the search to this many jobs
-	Weight        int // scheduling hint: heavier jobs are started first
+	// Final, if set, is evaluated once after the exploration of the scenario (coverage oracles).
+	Final  func() []Finding
+	Split  int // > 1: deal the first-level subtrees of the search to this many jobs
+	Weight int // scheduling hint: heavier jobs are started first
 }
 
 // Plain, Report and ViolationRec live in package rep (no runtime dependency).
@@ -168,6 +170,11 @@ func runScn(r *Report, sc *Scn, splitIdx, splitK int) {
 	if len(r.Samples) < 3 && st.First != nil {
 		r.Samples = append(r.Samples, map[string]any{"scenario": sc.Name, "bound": opts.Bound, "unbounded": opts.Unbounded,
 			"executions": st.Execs, "states": st.States, "first_execution_log": trunc(st.First.Log, 40), "first_execution_steps": st.First.Steps})
+	}
+	if sc.Final != nil && st.Exhaustive {
+		for _, f := range sc.Final() {
+			viol = append(viol, verifrt.Violation{Msg: f.Sig + "|" + f.Msg, Outcome: &verifrt.Outcome{}})
+		}
 	}
 	seen := map[string]bool{}
 	for _, v := range viol {
